@@ -84,13 +84,22 @@ theorem compound_is_overlapping_tie (l : Loc) :
     Gen.CompoundInterval_is_overlapping (toCI l) = .ok (!(nonOverlap l.blocks)) := by
   exact LoopTies.is_overlapping_tie l
 
-/-- L6: `CompoundInterval.has_overlap(other)` with a parent-less SingleInterval argument and
-    match_strand = full_span = False — `any(block.has_overlap(other, …) for block in blocks)` over the generated
-    single-interval overlap kernel = `Model.hasOverlap`. -/
-theorem compound_has_overlap_tie (l : Loc) (hl : WF (.compound l)) (b : Blk) (hb : b.1 ≤ b.2) (sb : Strand) :
-    Agree id (Gen.CompoundInterval_has_overlap (toCI l) (si b sb))
-      (Model.hasOverlap (.compound l) (.single b sb) false false) := by
-  exact LoopTies.has_overlap_tie l hl.2.1 b hb sb
+/-- L6a: `SingleInterval.has_overlap(other, match_strand, full_span=False)` on parent-less SingleIntervals — the
+    generated method (parent bookkeeping and type dispatch decided statically by the translator's `parentless` view):
+    the strand gate, then the generated overlap kernel; never raises. -/
+theorem single_has_overlap_tie (a b : Blk) (ha : a.1 ≤ a.2) (hb : b.1 ≤ b.2) (sa sb : Strand) (ms : Bool) :
+    Agree id (Gen.SingleInterval_has_overlap (si a sa) (si b sb) ms)
+      (Model.hasOverlap (.single a sa) (.single b sb) ms false) := by
+  exact LoopTies.si_has_overlap_tie a b ha hb sa sb ms
+
+/-- L6: `CompoundInterval.has_overlap(other, match_strand)` with a parent-less SingleInterval argument and
+    full_span = False — `any(block.has_overlap(other, match_strand, full_span=False) for block in blocks)` over the
+    generated `SingleInterval.has_overlap` = `Model.hasOverlap`. -/
+theorem compound_has_overlap_tie (l : Loc) (hl : WF (.compound l)) (b : Blk) (hb : b.1 ≤ b.2) (sb : Strand)
+    (ms : Bool) :
+    Agree id (Gen.CompoundInterval_has_overlap (toCI l) (si b sb) ms)
+      (Model.hasOverlap (.compound l) (.single b sb) ms false) := by
+  exact LoopTies.has_overlap_tie l hl.2.1 b hb sb ms
 
 /-- L7: `CompoundInterval._combine_blocks(preserve_overlappers)` — the generated loop with its running
     `curr_start/curr_end`, `new_starts/new_ends`, `needs_combining` (empty blocks dropped, `curr_end == next_start`
@@ -186,8 +195,12 @@ example : Gen.CompoundInterval_relative_interval_to_parent_location (toCI exLoc)
 --  library answers `CompoundInterval <3-5:-, 8-11:->` for the first request, as the driver op `relint` shows per run)
 example : Gen.CompoundInterval_is_overlapping (toCI exLoc) = .ok false := by decide
 example : Gen.CompoundInterval_is_overlapping (toCI exOv) = .ok true := by decide
-example : Gen.CompoundInterval_has_overlap (toCI exLoc) (si (5, 8) .plus) = .ok false := by decide
-example : Gen.CompoundInterval_has_overlap (toCI exLoc) (si (5, 9) .plus) = .ok true := by decide
+example : Gen.CompoundInterval_has_overlap (toCI exLoc) (si (5, 8) .plus) false = .ok false := by decide
+example : Gen.CompoundInterval_has_overlap (toCI exLoc) (si (5, 9) .plus) false = .ok true := by decide
+example : Gen.CompoundInterval_has_overlap (toCI exLoc) (si (5, 9) .plus) true = .ok false := by decide
+example : Gen.CompoundInterval_has_overlap (toCI exLoc) (si (5, 9) .minus) true = .ok true := by decide
+example : Gen.SingleInterval_has_overlap (si (3, 10) .plus) (si (5, 12) .minus) true = .ok false := by decide
+example : Gen.SingleInterval_has_overlap (si (3, 10) .plus) (si (5, 12) .minus) false = .ok true := by decide
 
 /-  c3 = CompoundInterval([2,5,5,10],[5,5,9,12],PLUS); c4 = CompoundInterval([3,7],[3,7],MINUS):
     c2._combine_blocks(True) is c2; c2._combine_blocks(False) = <2-9:+, 10-12:+>; c3._combine_blocks(True) = <2-9:+, 10-12:+>;
